@@ -8,6 +8,10 @@ import (
 	"testing"
 
 	"github.com/cometbft/cometbft/abci/types"
+
+	"github.com/oasisprotocol/oasis-core/go/common/cbor"
+	"github.com/oasisprotocol/oasis-core/go/consensus/api/transaction"
+	registry "github.com/oasisprotocol/oasis-core/go/registry/api"
 	"pgregory.net/rapid"
 
 	"verifharness/chain"
@@ -253,4 +257,69 @@ func tail(s []string, n int) []string {
 		return s[len(s)-n:]
 	}
 	return s
+}
+
+// TestC10NamespaceArrayForm is the reproduction of a chain-halting defect found with the alternative-encoding
+// mutator (first seen by the C16 byte-level check, confirmed here on the live multiplexer; repaired in /repo by
+// "fix: namespace identifiers must be CBOR byte strings"): one RegisterRuntime transaction whose id is a CBOR
+// array of integers with a reserved flag bit was accepted, after which the stored runtime could not be decoded and
+// BeginBlock of the next epoch transition failed for good.
+func TestC10NamespaceArrayForm(t *testing.T) {
+	rec := ev.New("C10", "TestC10NamespaceArrayForm", "deterministic regression case: RegisterRuntime with an array-form namespace id (reserved flag bit) by a staked entity, then 9 more blocks across two epoch transitions", "")
+	defer rec.Flush()
+	spec := chain.DefaultSpec()
+	spec.WithRuntime = true
+	spec.RtGroup, spec.RtBackup, spec.RtRoundTimeout = 1, 1, 3
+	spec.NodeRoles = [][]int{{3}, {3}}
+	w0, err := chain.BuildGenesis(spec)
+	if err != nil {
+		ev.Infra(t, "genesis: %v", err)
+	}
+	sim, err := chain.NewSim(spec, []chain.ReplicaConfig{{Name: "R0", Backend: "badger", MemoryOnly: true, Keys: w0.Entities[0].Nodes[0]}})
+	if err != nil {
+		ev.Infra(t, "sim: %v", err)
+	}
+	defer sim.Close()
+	r := sim.Reps[0]
+	run := func(txs [][]byte) *chain.BlockOutcome {
+		vals := sim.E.Validators().Sorted()
+		b := &chain.Block{Height: sim.E.Height, Time: sim.E.Time.Add(1e9), Proposer: vals[0], Txs: txs}
+		signed := map[string]bool{}
+		for _, v := range sim.E.PrevValidators() {
+			signed[string(v.Address)] = true
+		}
+		b.LastCommit = sim.E.CommitInfoFor(signed)
+		if _, err := sim.E.Propose(b, sim.ReplicaFor(b.Proposer), r); err != nil {
+			ev.Violation(t, "block-halts-chain", "height %d: no proposal can be prepared any more: %v", b.Height, err)
+		}
+		out := sim.E.Execute(r, b, chain.PathProcess, nil)
+		if out.Err != nil {
+			ev.Violation(t, "block-halts-chain", "height %d: block execution failed: %v", b.Height, out.Err)
+		}
+		if err := sim.AfterCommit(b, out); err != nil {
+			ev.Infra(t, "advance: %v", err)
+		}
+		return out
+	}
+	run(nil)
+	rt := *sim.W.Runtime
+	rt.Deployments = []*registry.VersionInfo{{ValidFrom: 6}}
+	var m map[string]any
+	if err := cbor.Unmarshal(cbor.Marshal(&rt), &m); err != nil {
+		ev.Infra(t, "decode: %v", err)
+	}
+	id := make([]any, 32)
+	for i := range id {
+		id[i] = uint64(0)
+	}
+	id[1], id[31] = uint64(1), uint64(7)
+	m["id"] = id
+	ek := sim.W.Entities[0]
+	st, _ := transaction.Sign(ek.Signer, &transaction.Transaction{Nonce: 0, Fee: &transaction.Fee{Gas: 1000000}, Method: registry.MethodRegisterRuntime, Body: cbor.Marshal(m)})
+	out := run([][]byte{cbor.Marshal(st)})
+	res := fmt.Sprintf("register: %s/%d %s", out.TxResults[0].Codespace, out.TxResults[0].Code, out.TxResults[0].Log)
+	for i := 0; i < 9; i++ {
+		run(nil)
+	}
+	rec.Case(true, ev.Fingerprint("ns"), res+"; chain continued for 9 blocks")
 }
